@@ -1,5 +1,7 @@
 module verif/ev
 
-go 1.20
+go 1.23
+
+toolchain go1.23.5
 
 require pgregory.net/rapid v1.3.0
